@@ -216,6 +216,9 @@ def run(tier, seed, fold):
     shards = driver.run_shards("C19", os.path.join(bindir, SPEC["bin"]), t["shards"], seed, tier, t["budget_s"], extra=extra, events=True)
     fold.add_shards(shards)
     post(shards, fold, tier, seed)
+    if tier == "thorough":
+        # Miri: undefined behaviour / invalid values in everything the parser reaches
+        driver.miri_run("C19", "equihash", seed, fold, procs=12, ops=400)
 
 
 def post(shards, fold, tier, seed):
